@@ -15,11 +15,15 @@ and are called here with the harness's own convention: when such a call raises, 
 np.random in another way or makes another number of internal calls than the model transcribes, that is a correspondence
 break (`convention_break`): the bracket is evaluated on the public entry point against the best exact oracle, and only
 a failure THERE is claimed as a failing input.
+Source translator (DESIGN.md 3.2): `pre_build` re-translates every function from `estimate` downwards from the source text into
+lean/PersimVerif/Generated/SrcMGH.lean (harness/translator/py2lean_mgh.py, key "mgh") and Lean re-proves the obligations
+`src_<f>_eq_model` (generated definition = model, for all inputs); `run` first reports which of them no longer check.
 """
 import itertools, math, warnings
 import numpy as np
 from .. import common
 from ..common import enc, ask, call
+from ..translator import py2lean
 
 LEVEL = "proof"
 RULE = ("pairs of connected simple graphs from one PRNG: paths, cycles, stars, cliques, complete bipartite, grids, "
@@ -576,7 +580,18 @@ def found_any(ctx):
     return any(f for _, f in ctx.violations) or len(ctx.violations) > 40
 
 
+# source translator (DESIGN.md 3.2): the mGH functions are re-translated from the source text on every run (key "mgh")
+TRUSTED = list(TRUSTED) + [py2lean.trusted_note("mgh")]
+PROP_FILES = ["PersimVerif/Props/C05.lean"] + py2lean.prop_files("mgh")
+
+
+def pre_build(ctx):
+    """source translator: regenerate Generated/SrcMGH.lean from PERSIM_ROOT's source"""
+    py2lean.pre_build(ctx, ("mgh",))
+
+
 def run(ctx):
+    py2lean.report_broken(ctx, PROP_FILES)
     g = G()
     ctx.extra["source_digest"] = common.source_digest(SRC, ANCHORED)
     nmax = ctx.n(9, 40)
@@ -1297,3 +1312,4 @@ MANIFEST = {
     "technique": "Lean 4 theorems over a hand-written model with the RNG as an explicit input + differential correspondence "
                  "with recorded np.random draws + exhaustive oracle for small graphs",
 }
+MANIFEST["note"] += " " + py2lean.manifest_note("mgh")
